@@ -460,6 +460,9 @@ func shortDigit(s string) string {
 }
 
 func r11plmn(c *core.Ctx) {
+	if !c.Once("r11plmn") {
+		return
+	}
 	const R = "R11.plmn"
 	c.Rule(R, "announced PLMN = octets 1..3 of EncodeSuci(IMSI, len(mnc)); stored in TestPlmn and the NG Setup PLMN fields; emulator-path builders read TestPlmn")
 	fn := mustFunc(c, pStg, "ManageNGSetup")
